@@ -19,6 +19,12 @@ import FqModel.Cli
         <O> = `<exit>/<len>:<polyhash of stdout>/<errs|->`, errs = `io:<hexname>`, `dec:<hexname>`, `expr`, `fatal`, `other` joined by `,`
         singles = the same command with only the i-th marked input file kept
         norepl  = (only when the command line has -i or --repl) the same command without it
+  `opt argv=… stdin=… world=… keys=<hexkey,…>` TAB `exit=<n> opts=<hexkey:V,…|none>`
+        one run whose program prints `options` to stderr; V = N | T | F | I<int> | S<hex> | A<hex+hex…|.> | P<hex~hex+…> | Z ([null]) | X
+        (the header carries fq's `_opt_build_default_fixed` in the same codec: `dflt=<hexkey:V,…>`)
+  `ometa same <argvA> <argvB> stdin=… world=… keys=…` TAB `<obsA> | <obsB>`   two command lines a merge theorem equates
+  `bind argv=… stdin=… world=… names=<hex,…> prog=<hex>` TAB `exit=<n> vals=<hexname:K:hexpayload,…|none>`
+        one run whose program `prog` prints the named arguments; K = a string / j JSON text / r raw-file path / d decode-file path / u unknown
 -/
 open FqModel FqModel.Cli FqModel.Proto
 
@@ -71,6 +77,43 @@ structure Hdr where
   table : Table
   codes : Codes
   otypes : OTypes
+  dflt : JObj
+
+/-! ### the flat value codec (harness `encJV`) -/
+
+def showJV : JV → String
+  | .null => "N"
+  | .bool true => "T"
+  | .bool false => "F"
+  | .num n => s!"I{n}"
+  | .str s => "S" ++ hexOfStr s
+  | .strs xs => "A" ++ (if xs.isEmpty then "." else "+".intercalate (xs.map hexOfStr))
+  | .pairs xs => if xs.isEmpty then "A." else "P" ++ "+".intercalate (xs.map (fun (a, b) => hexOfStr a ++ "~" ++ hexOfStr b))
+  | .obj _ => "X"
+  | .nullArr => "Z"
+  | .other => "X"
+
+def parseJV (s : String) : Option JV :=
+  let body := (s.drop 1).toString
+  match s.toList.head? with
+  | some 'N' => if body == "" then some .null else none
+  | some 'T' => if body == "" then some (.bool true) else none
+  | some 'F' => if body == "" then some (.bool false) else none
+  | some 'Z' => if body == "" then some .nullArr else none
+  | some 'X' => if body == "" then some .other else none
+  | some 'I' => body.toInt?.map JV.num
+  | some 'S' => (strOfHex body).map JV.str
+  | some 'A' => if body == "." then some (.pairs []) else ((body.splitOn "+").mapM strOfHex).map JV.strs
+  | some 'P' => ((body.splitOn "+").mapM (fun (it : String) => match it.splitOn "~" with
+      | [a, b] => do let a ← strOfHex a; let b ← strOfHex b; pure (a, b)
+      | _ => none)).map JV.pairs
+  | _ => none
+
+def parseJObj (s : String) : Option JObj :=
+  if s == "." then some [] else
+  (s.splitOn ",").mapM (fun (e : String) => match e.splitOn ":" with
+    | [k, v] => do let k ← strOfHex k; let v ← parseJV v; pure (k, v)
+    | _ => none)
 
 def optStr (s : String) : Option (Option Str) := if s == "~" then some none else (strOfHex s).map some
 
@@ -91,8 +134,8 @@ def kv (ws : List String) (key : String) : Option String :=
   (ws.find? (·.startsWith (key ++ "="))).map (fun w => (w.drop (key.length + 1)).toString)
 
 def parseHdr (ws : List String) : Except String Hdr :=
-  match kv ws "codes", kv ws "defaults", kv ws "opts", kv ws "otypes" with
-  | some cs, some d, some os, some ots =>
+  match kv ws "codes", kv ws "defaults", kv ws "opts", kv ws "otypes", (kv ws "dflt").bind parseJObj with
+  | some cs, some d, some os, some ots, some dflt =>
     match (cs.splitOn ",").mapM String.toNat? with
     | some [a, i, c, de, e] =>
       if d != "0" then .error "option table has defaults: not modelled (args.jq:98-104)" else
@@ -106,11 +149,17 @@ def parseHdr (ws : List String) : Except String Hdr :=
           match (ots.splitOn ",").mapM (fun e => match e.splitOn ":" with
               | [k, ty] => (strOfHex k).map (fun k => (k, ty))
               | _ => none) with
-          | some otypes => .ok { table := t, codes, otypes }
+          | some otypes =>
+            -- hypothesis of Props.C17.flag_eq_option_partial, for EVERY boolean entry of the table: its name is typed
+            -- boolean in `_opt_options` or not listed there
+            match t.find? (fun o => o.bool && !(o.string || o.array || o.object || o.pairs) &&
+                !(getKey o.name otypes == some "boolean" || getKey o.name otypes == none)) with
+            | some o => .error s!"boolean flag {String.ofList o.name} has a non-boolean option type: `-o {String.ofList o.name}=true` is not the flag"
+            | none => .ok { table := t, codes, otypes, dflt }
           | none => .error "otypes"
       | none => .error "opts"
     | _ => .error "codes"
-  | _, _, _, _ => .error "hdr fields"
+  | _, _, _, _, _ => .error "hdr fields"
 
 /-! ### run lines -/
 
@@ -202,7 +251,7 @@ def sameSet (a b : List String) : Bool := a.all b.contains && b.all a.contains
 
 def runVerdict (h : Hdr) (argv : List Str) (marks : List Bool) (w : World) (all : Obs) (singles : List Obs)
     (norepl : Option Obs) : String :=
-  match mainModel h.table h.codes h.otypes w argv with
+  match mainModel h.table h.codes h.dflt h.otypes w argv with
   | .error (.mk why) => s!"BADOP unmodelled: {why}"
   | .ok p =>
     let modelErrs := collapseExpr (p.errs.map showELine) ++ (if p.fatal then ["fatal"] else [])
@@ -349,6 +398,126 @@ def stepMeta (h : Hdr) (kind a b : String) (obs : String) : String :=
     else "BADOP meta kind"
   | _, _, _ => "BADOP meta"
 
+
+/-! ### opt / ometa / bind lines -/
+
+def parseWorld (ws : List String) : Option World :=
+  match kv ws "stdin", kv ws "world" with
+  | some si, some wo =>
+    match parseFK si, (if wo == "." then some [] else (wo.splitOn ",").mapM parseTok) with
+    | some stdin, some toks => some { toks, stdin }
+    | _, _ => none
+  | _, _ => none
+
+def parseKeys (s : String) : Option (List Str) := if s == "." then some [] else (s.splitOn ",").mapM strOfHex
+
+/-- model observation of an opt line: `exit=<n> opts=<…|none>`; `runFailed` = the run itself reports failures (the
+    program may then never have run) -/
+structure OptPred where
+  exit : Nat
+  opts : Option JObj
+  runFailed : Bool
+
+def optModel (h : Hdr) (w : World) (argv : List Str) : Except String OptPred :=
+  match mainDecide h.table h.dflt h.otypes w argv with
+  | .error (.mk why) => .error why
+  | .ok .fatalArgs => .ok { exit := h.codes.args, opts := none, runFailed := false }
+  | .ok .help => .ok { exit := 0, opts := none, runFailed := false }
+  | .ok .version => .ok { exit := 0, opts := none, runFailed := false }
+  | .ok (.run m o) =>
+    match runModel h.codes w m o with
+    | .error (.mk why) => .error why
+    | .ok p => .ok { exit := p.exit, opts := some m, runFailed := p.exit != 0 }
+
+def showOpts (keys : List Str) (m : JObj) : String :=
+  ",".intercalate (keys.map (fun k => hexOfStr k ++ ":" ++ showJV ((getKey k m).getD .null)))
+
+def showOptPred (keys : List Str) (p : OptPred) : String :=
+  s!"exit={p.exit} opts=" ++ (match p.opts with | some m => showOpts keys m | none => "none")
+
+/-- does the model's prediction agree with `exit=<n> opts=<…>`? -/
+def optAgree (keys : List Str) (p : OptPred) (obs : String) : Bool :=
+  let ows := words obs
+  match kv ows "exit", kv ows "opts" with
+  | some e, some o =>
+    e == toString p.exit &&
+      (if o == "none" then p.opts.isNone || p.runFailed
+       else match p.opts with | some m => o == showOpts keys m | none => false)
+  | _, _ => false
+
+def stepOpt (h : Hdr) (ws : List String) (obs : String) : String :=
+  match (kv ws "argv").bind parseArgv, parseWorld ws, (kv ws "keys").bind parseKeys with
+  | some (argv, _), some w, some keys =>
+    if obs.startsWith "panic:" then "PROPFAIL fq panicked" else
+    match optModel h w argv with
+    | .error why => s!"BADOP unmodelled: {why}"
+    | .ok p => if optAgree keys p obs then "OK" else s!"DIVERGE model={showOptPred keys p}"
+  | _, _, _ => "BADOP opt fields"
+
+def stepOmeta (h : Hdr) (a b : String) (ws : List String) (obs : String) : String :=
+  match parseArgv a, parseArgv b, parseWorld ws, (kv ws "keys").bind parseKeys, obs.splitOn " | " with
+  | some (aa, _), some (ab, _), some w, some keys, [oa, ob] =>
+    if oa.startsWith "panic:" || ob.startsWith "panic:" then "PROPFAIL fq panicked" else
+    match optModel h w aa, optModel h w ab with
+    | .ok pa, .ok pb =>
+      let div := if !optAgree keys pa oa then s!" ;DIVERGE model={showOptPred keys pa}"
+        else if !optAgree keys pb ob then s!" ;DIVERGE model={showOptPred keys pb}" else ""
+      -- hypotheses of the theorems: the model itself must equate the two command lines
+      if showOptPred keys pa != showOptPred keys pb then "BADOP ometa pair outside the theorems' hypotheses"
+      else if oa != ob then s!"PROPFAIL the two command lines give different options or status: {oa} | {ob}{div}"
+      else if div.isEmpty then "OK" else (div.drop 2).toString
+    | .error why, _ => s!"BADOP unmodelled: {why}"
+    | _, .error why => s!"BADOP unmodelled: {why}"
+  | _, _, _, _, _ => "BADOP ometa fields"
+
+def showSrc : Src → String
+  | .arg v => "a:" ++ hexOfStr v
+  | .json t => "j:" ++ hexOfStr t
+  | .raw p => "r:" ++ hexOfStr p
+  | .dec p => "d:" ++ hexOfStr p
+
+def stepBind (h : Hdr) (ws : List String) (obs : String) : String :=
+  match (kv ws "argv").bind parseArgv, parseWorld ws, (kv ws "names").bind parseKeys, (kv ws "prog").bind strOfHex with
+  | some (argv, _), some w, some names, some prog =>
+    if obs.startsWith "panic:" then "PROPFAIL fq panicked" else
+    let ows := words obs
+    match kv ows "exit", kv ows "vals" with
+    | some oe, some ov =>
+      -- on the observation alone: a variable is bound to one of the values the command line gives (never to something else)
+      let given (payload : String) : Bool :=
+        match strOfHex payload with
+        | some p => argv.any (fun a => a == p || isInfix p a)
+        | none => false
+      let bad : Option String :=
+        if ov == "none" || ov == "differ" then (if ov == "differ" then some "the variables changed between inputs" else none)
+        else (ov.splitOn ",").findSome? (fun e => match e.splitOn ":" with
+          | [n, k, p] => if k == "u" || !given p then some s!"variable {n} is bound to a value the command line does not give" else none
+          | _ => some "unreadable binding")
+      let model : Except String String :=
+        match mainDecide h.table h.dflt h.otypes w argv with
+        | .error (.mk why) => .error why
+        | .ok .fatalArgs => .ok s!"exit={h.codes.args} vals=none"
+        | .ok .help => .ok "exit=0 vals=none"
+        | .ok .version => .ok "exit=0 vals=none"
+        | .ok (.run m o) =>
+          match runModel h.codes w m o, bindList m with
+          | .error (.mk why), _ => .error why
+          | _, .error (.mk why) => .error why
+          | .ok p, .ok bl =>
+            -- the variables are printed by the program `prog`; if another program runs (the text was taken as a flag's value) nothing is printed
+            if p.exit != 0 || o.exprArg != some prog then .ok s!"exit={p.exit} vals=none"
+            else .ok (s!"exit=0 vals=" ++ ",".intercalate (names.map (fun n =>
+              hexOfStr n ++ ":" ++ (match bindOf bl n with | some s => showSrc s | none => "unbound"))))
+      match model with
+      | .error why => s!"BADOP unmodelled: {why}"
+      | .ok mo =>
+        let div := if mo == s!"exit={oe} vals={ov}" then "" else s!"DIVERGE model={mo}"
+        match bad with
+        | some why => s!"PROPFAIL {why}" ++ (if div.isEmpty then "" else " ;" ++ div)
+        | none => if div.isEmpty then "OK" else div
+    | _, _ => "BADOP bind obs"
+  | _, _, _, _ => "BADOP bind fields"
+
 def stepC17 (st : Option Hdr) (op obs : String) : Option Hdr × String :=
   match words op with
   | "hdr" :: ws =>
@@ -367,6 +536,9 @@ def stepC17 (st : Option Hdr) (op obs : String) : Option Hdr × String :=
       | ["parse", av] => (st, stepParse h av obs)
       | ["meta", kind, a, b] => (st, stepMeta h kind a b obs)
       | "run" :: rest => (st, stepRun h rest obs)
+      | "opt" :: rest => (st, stepOpt h rest obs)
+      | "ometa" :: "same" :: a :: b :: rest => (st, stepOmeta h a b rest obs)
+      | "bind" :: rest => (st, stepBind h rest obs)
       | _ => (st, "BADOP op")
 
 def main : IO Unit := runSt (none : Option Hdr) stepC17
